@@ -84,7 +84,7 @@ theorem step_wlog {cfg : Cfg} {s s' : State} {a : Action} (hs : step cfg s a = s
   all_goals (first
     | (unfold stepStart at hs) | (unfold stepSendCall at hs) | (unfold stepCloseCall at hs) | (unfold stepPeerSend at hs)
     | (unfold stepRTimeout at hs) | (unfold stepSnd at hs) | (unfold stepWRecv at hs) | (unfold stepWDone at hs)
-    | (unfold stepWFlush at hs) | (unfold stepWWgDone at hs) | (unfold stepRFrame at hs) | (unfold stepRErr at hs)
+    | (unfold stepWFlush at hs) | (unfold stepWWgDone at hs) | (unfold stepRArm at hs) | (unfold stepRChk at hs) | (unfold stepRFrame at hs) | (unfold stepRErr at hs)
     | (unfold stepRNil at hs) | (unfold stepRPush at hs) | (unfold stepRDrop at hs) | (unfold stepRCheck at hs)
     | (unfold stepRWgDone at hs) | (unfold stepInbPop at hs) | (unfold stepErrPop at hs) | skip)
   all_goals (repeat' (split at hs))
@@ -129,7 +129,7 @@ theorem step_accepted {cfg : Cfg} {s s' : State} {a : Action} (hs : step cfg s a
   all_goals (first
     | (unfold stepStart at hs) | (unfold stepSendCall at hs) | (unfold stepCloseCall at hs) | (unfold stepPeerSend at hs)
     | (unfold stepRTimeout at hs) | (unfold stepWRecv at hs) | (unfold stepWDone at hs) | (unfold stepWWrite writeOne at hs)
-    | (unfold stepWFlush at hs) | (unfold stepWWgDone at hs) | (unfold stepRFrame at hs) | (unfold stepRErr at hs)
+    | (unfold stepWFlush at hs) | (unfold stepWWgDone at hs) | (unfold stepRArm at hs) | (unfold stepRChk at hs) | (unfold stepRFrame at hs) | (unfold stepRErr at hs)
     | (unfold stepRNil at hs) | (unfold stepRPush at hs) | (unfold stepRDrop at hs) | (unfold stepRCheck at hs)
     | (unfold stepRWgDone at hs) | (unfold stepInbPop at hs) | (unfold stepErrPop at hs) | skip)
   all_goals (repeat' (split at hs))
@@ -182,7 +182,7 @@ theorem step_mono {cfg : Cfg} {s s' : State} {a : Action} (hs : step cfg s a = s
     | (unfold stepStart at hs) | (unfold stepSendCall at hs) | (unfold stepCloseCall at hs) | (unfold stepPeerSend at hs)
     | (unfold stepRTimeout at hs) | (unfold stepSnd at hs) | (unfold stepWRecv at hs) | (unfold stepWDone at hs)
     | (unfold stepWWrite writeOne at hs)
-    | (unfold stepWFlush at hs) | (unfold stepWWgDone at hs) | (unfold stepRFrame at hs) | (unfold stepRErr at hs)
+    | (unfold stepWFlush at hs) | (unfold stepWWgDone at hs) | (unfold stepRArm at hs) | (unfold stepRChk at hs) | (unfold stepRFrame at hs) | (unfold stepRErr at hs)
     | (unfold stepRNil at hs) | (unfold stepRPush at hs) | (unfold stepRDrop at hs) | (unfold stepRCheck at hs)
     | (unfold stepRWgDone at hs) | (unfold stepInbPop at hs) | (unfold stepErrPop at hs) | skip)
   all_goals (repeat' (split at hs))
@@ -220,7 +220,7 @@ theorem step_snd {cfg : Cfg} {s s' : State} {a : Action} (hs : step cfg s a = so
   all_goals (first
     | (unfold stepStart at hs) | (unfold stepCloseCall at hs) | (unfold stepPeerSend at hs)
     | (unfold stepRTimeout at hs) | (unfold stepWRecv at hs) | (unfold stepWDone at hs) | (unfold stepWWrite writeOne at hs)
-    | (unfold stepWFlush at hs) | (unfold stepWWgDone at hs) | (unfold stepRFrame at hs) | (unfold stepRErr at hs)
+    | (unfold stepWFlush at hs) | (unfold stepWWgDone at hs) | (unfold stepRArm at hs) | (unfold stepRChk at hs) | (unfold stepRFrame at hs) | (unfold stepRErr at hs)
     | (unfold stepRNil at hs) | (unfold stepRPush at hs) | (unfold stepRDrop at hs) | (unfold stepRCheck at hs)
     | (unfold stepRWgDone at hs) | (unfold stepInbPop at hs) | (unfold stepErrPop at hs) | skip)
   all_goals (repeat' (split at hs))
